@@ -683,6 +683,17 @@ class SymExec:
                 idx_ = self.subst(target.slice, p.env) if isinstance(target.slice, ast.AST) else None
                 if idx_ is not None:
                     idx_ = simplify(idx_)
+                if isinstance(b, ast.Name) and isinstance(cur, ast.Attribute) and dotted(cur) and \
+                   dotted(cur).split('.')[0] in (['self', 'cls'] + list(self.func.all_params)):
+                    # the local is another name of an object kept in an attribute (end = self.p1, or the element of
+                    # a loop over (self.p1, self.p2)): the element store goes to that object
+                    d2 = dotted(cur)
+                    old_ = p.env.get(d2, cur)
+                    p.env[d2] = ast.Call(func=ast.Name(id='_upd', ctx=ast.Load()), args=[old_, idx_, value], keywords=[]) \
+                        if idx_ is not None else old_
+                    p.stores.append((d2 + '[...]', value, st))
+                    p.events.append(('store', '%s[%s]' % (d2, norm(idx_) if idx_ is not None else '?'), value, st, p.loops))
+                    return
                 lit2 = _matrix_literal(cur)
                 if lit2 is not None and isinstance(idx_, ast.Tuple) and len(idx_.elts) == 2 and isinstance(b, ast.Name) and \
                    all(isinstance(x, ast.Constant) and isinstance(x.value, int) and not isinstance(x.value, bool)
